@@ -1,6 +1,7 @@
 import Hgxv.Proofs.C01Cor
 import Hgxv.Proofs.C01Query
 import Hgxv.Proofs.C01Shrink
+import Hgxv.Proofs.C01Batch
 /-! # C01 - property theorems
 
 Model and vocabulary: `Hgxv/Model/C01.lean` (concrete `Store`/`step`/`answer`, abstract `Spec`); helper lemmas:
@@ -346,3 +347,43 @@ example :
     query s 0 (.edges { order := some 1 }) = .edges [[1, 2]] ∧
     query s 0 (.edges { order := some 1, upTo := true }) = .edges [[1, 2], []] ∧
     query s 0 (.edges { order := some 1, size := some 2 }) = .rej := by decide
+
+/-- **Single or batched.** For every store (no hypothesis) and every batched call that is accepted: running its members
+one call each - `seqOps apply` stops at the first rejection, as a caller would - rejects nowhere and ends in the very
+same store (hence, by `C01_refines`, in the same abstract hypergraph and the same answer to every query):
+`add_nodes(ns, md)` = `add_node(n, md[n])` for `n` in `ns`; `remove_edges`, `remove_nodes(.., keep_edges)` likewise;
+`add_edges(es, weights, metadata)` = `add_edge(es[i], weights[i], metadata[i])` in order (last clause: that is what the
+`i`-th triple is), started from the store after the EMPTY batch `add_edges([], weights=[])`, which is all a batch with
+weights does beyond its members (it switches an unweighted hypergraph to weighted; without weights it is the identity).
+Weights are arbitrary `Int` quanta: no magnitude or mix of magnitudes inside one batch is special. -/
+theorem C01_batched_is_sequence (s : Store) :
+    (∀ ns mds, (apply s (.addNodes ns mds)).2 = .ok →
+        seqOps apply s (ns.map fun n => Op.addNode n (mds.bind fun t => get? t n)) = apply s (.addNodes ns mds))
+    ∧ (∀ raws ws mds, (apply s (.addEdges raws ws mds)).2 = .ok →
+        seqOps apply (apply s (.addEdges [] (ws.map fun _ => []) none)).1
+          ((zipArgs raws ws mds).map fun x => Op.addEdge x.1 (if ws.isSome then x.2.1 else none) x.2.2)
+          = apply s (.addEdges raws ws mds))
+    ∧ (∀ raws, (apply s (.removeEdges raws)).2 = .ok →
+        seqOps apply s (raws.map Op.removeEdge) = apply s (.removeEdges raws))
+    ∧ (∀ ns keep, (apply s (.removeNodes ns keep)).2 = .ok →
+        seqOps apply s (ns.map fun n => Op.removeNode n keep) = apply s (.removeNodes ns keep))
+    ∧ (∀ ws : Option (List Int),
+        (apply s (.addEdges [] (ws.map fun _ => []) none)).1 = { s with weighted := s.weighted || ws.isSome })
+    ∧ (∀ (raws : List (List Nat)) (ws : Option (List Int)) (mds : Option (List Meta)) (i : Nat),
+        (zipArgs raws ws mds)[i]? = raws[i]?.map fun r => (r, ws.bind (·[i]?), mds.bind (·[i]?))) :=
+  ⟨C01.addNodes_singles s, C01.addEdges_singles s, C01.removeEdges_singles s, C01.removeNodes_singles s,
+   C01.addEdges_empty s, C01.zipArgs_getElem?⟩
+
+/-- non-vacuity: on the UNWEIGHTED store after `add_edge((7, 8))` the batch `add_edges([(1,2),(2,3,4),(2,1)],
+weights=[2^53 + 1, 1/2, 3])` (quanta of 1/4: an integer beyond 2^53 next to a fraction in one batch; `{1,2}` twice in
+two node orders) is accepted, its three single calls are accepted, both give `{7,8}: 1, {1,2}: 2^53 + 4, {2,3,4}: 1/2`,
+and the hypergraph is weighted afterwards -/
+example :
+    let s := (apply (Store.new false []) (.addEdge [7, 8] none none)).1
+    let big : Int := 4 * (2 ^ 53 + 1)
+    let b := Op.addEdges [[1, 2], [2, 3, 4], [2, 1]] (some [big, 2, 12]) none
+    (apply s b).2 = .ok ∧
+    seqOps apply { s with weighted := true }
+      [.addEdge [1, 2] (some big) none, .addEdge [2, 3, 4] (some 2) none, .addEdge [2, 1] (some 12) none] = apply s b ∧
+    answer (apply s b).1 (.weightsDict {}) = .ews [([7, 8], 4), ([1, 2], 4 * (2 ^ 53 + 4)), ([2, 3, 4], 2)] ∧
+    answer (apply s b).1 .isWeighted = .bool true := by decide
